@@ -8,7 +8,8 @@ import sys
 
 HERE = os.path.dirname(os.path.dirname(os.path.abspath(__file__)))
 EXTRA = {"C20": ["C09"], "C02": ["C01"], "C04": ["C09"], "C17-2": ["C16"], "C05-2": ["C09"], "C20-2": ["C06"], "C02-2": [], "C04-2": [],
-         "C16-2": ["C17"], "C06-2": ["C20"]}
+         "C16-2": ["C17"], "C06-2": ["C20"], "C06-3": ["C04"], "C08-3": ["C04"], "C05-3": [], "C20-3": ["C07"], "C17-3": ["C16"], "C03-3": ["C19"],
+         "C19-3": ["C03"], "C01-3": ["C02"], "C02-3": ["C01"]}
 
 
 def sh(cmd, **kw):
